@@ -22,7 +22,7 @@ use s4lib::common::{FileType, FileTypeArchive, FileTypeTextEncoding, ResultS3};
 use s4lib::readers::blockreader::BlockReader;
 use std::io::Write;
 
-fn ft(a: FileTypeArchive) -> FileType {
+pub fn ft(a: FileTypeArchive) -> FileType {
     FileType::Text { archival_type: a, encoding_type: FileTypeTextEncoding::Utf8Ascii }
 }
 
@@ -53,7 +53,7 @@ fn pieces<'a>(d: &'a [u8], cuts: &[usize]) -> Vec<&'a [u8]> {
     v
 }
 
-fn build_gz(d: &[u8], recipe: &str) -> Vec<u8> {
+pub fn build_gz(d: &[u8], recipe: &str) -> Vec<u8> {
     let p: Vec<&str> = recipe.split(';').collect();
     let level: u32 = p[0].trim_start_matches('l').parse().unwrap();
     let bits: u32 = p.get(1).map(|x| x.parse().unwrap()).unwrap_or(0);
@@ -82,7 +82,7 @@ fn lz4_bsz(id: u32) -> (lz4_flex::frame::BlockSize, usize) {
 }
 
 /// returns (container, decompressed length of each frame block)
-fn build_lz4(d: &[u8], recipe: &str) -> (Vec<u8>, Vec<usize>) {
+pub fn build_lz4(d: &[u8], recipe: &str) -> (Vec<u8>, Vec<usize>) {
     let p: Vec<&str> = recipe.split(';').collect();
     let id: u32 = p[0].trim_start_matches('b').parse().unwrap();
     let linked = p.get(1).map(|x| *x == "L").unwrap_or(false);
@@ -102,15 +102,15 @@ fn build_lz4(d: &[u8], recipe: &str) -> (Vec<u8>, Vec<usize>) {
     (e.finish().unwrap(), segs)
 }
 
-fn build_xz(d: &[u8]) -> Vec<u8> {
+pub fn build_xz(d: &[u8]) -> Vec<u8> {
     let mut out = Vec::new();
     lzma_rs::xz_compress(&mut std::io::Cursor::new(d), &mut out).unwrap();
     out
 }
 
-const MEMBER: &str = "dir/member.log";
+pub const MEMBER: &str = "dir/member.log";
 
-fn build_tar(d: &[u8], recipe: &str) -> Vec<u8> {
+pub fn build_tar(d: &[u8], recipe: &str) -> Vec<u8> {
     let p: Vec<&str> = recipe.split(';').collect();
     let gnu = p[0] == "g";
     let before: usize = p.get(1).map(|x| x.parse().unwrap()).unwrap_or(0);
@@ -139,12 +139,15 @@ fn segs_str(s: &[usize]) -> String {
     if s.is_empty() { "-".to_string() } else { s.iter().map(|x| x.to_string()).collect::<Vec<_>>().join(",") }
 }
 
-fn read_all(path: String, filetype: FileType, bs: u64, order: Vec<u64>, d: Vec<u8>) -> String {
+/// `keep`: call `disable_drop_data()` right after `new` (as the layers above do for a year-less
+/// streamed log): no block is dropped from then on
+pub fn read_all(path: String, filetype: FileType, bs: u64, order: Vec<u64>, d: Vec<u8>, keep: bool) -> String {
     let r = guarded(move || {
         let mut br = match BlockReader::new(path, filetype, bs) {
             Ok(v) => v,
             Err(e) => return format!("err-new {}", e.kind()),
         };
+        if keep { br.disable_drop_data(); }
         let fsz = br.filesz();
         let mut out: Vec<String> = vec![];
         for k in order.iter() {
@@ -181,7 +184,7 @@ pub fn replay_line(req: &str) -> String {
     if let Some(p) = recipe.strip_prefix("file=") {
         let a = match kind { "bz2" => FileTypeArchive::Bz2, "tar" => FileTypeArchive::Tar, "gz" => FileTypeArchive::Gz,
                              "xz" => FileTypeArchive::Xz, "lz4" => FileTypeArchive::Lz4, _ => FileTypeArchive::Normal };
-        return read_all(p.to_string(), ft(a), bs, order, d);
+        return read_all(p.to_string(), ft(a), bs, order, d, false);
     }
     let (bytes, suffix, a): (Vec<u8>, &str, FileTypeArchive) = match kind {
         "plain" => (d.clone(), ".log", FileTypeArchive::Normal),
@@ -198,10 +201,10 @@ pub fn replay_line(req: &str) -> String {
     let f = write_tmp(&bytes, suffix);
     let mut path = f.path().to_str().unwrap().to_string();
     if kind == "tar" { path = format!("{}|{}", path, MEMBER); }
-    read_all(path, ft(a), bs, order, d)
+    read_all(path, ft(a), bs, order, d, false)
 }
 
-fn gen_data(rng: &mut Rng, len: usize) -> Vec<u8> {
+pub fn gen_data(rng: &mut Rng, len: usize) -> Vec<u8> {
     let mut d = Vec::with_capacity(len);
     let style = rng.below(3);
     let mut i = 0usize;
@@ -252,11 +255,11 @@ fn orders(rng: &mut Rng, nblocks: u64, cap: usize) -> Vec<Vec<u64>> {
     v
 }
 
-fn join(o: &[u64]) -> String {
+pub fn join(o: &[u64]) -> String {
     if o.is_empty() { "-".to_string() } else { o.iter().map(|x| x.to_string()).collect::<Vec<_>>().join(",") }
 }
 
-fn cuts(rng: &mut Rng, len: usize) -> String {
+pub fn cuts(rng: &mut Rng, len: usize) -> String {
     let n = rng.below(4);
     let mut c: Vec<usize> = (0..n).map(|_| rng.below(len + 1)).collect();
     c.sort();
